@@ -75,9 +75,9 @@ def nontrivial(files, pl, single):
     return False
 
 
-def run_case(run, tf, drv, files, pl, single, via_cli, tag):
+def run_case(run, tf, drv, files, pl, single, via_cli, tag, spelling=None):
     case = {"files": [(rel, b.token()) for rel, b in files], "pl": pl, "single": single,
-            "via_cli": via_cli, "gen": tag}
+            "via_cli": via_cli, "gen": tag, "spelling": spelling}
     with sandbox("c01") as box:
         root = os.path.join(box, "payload")
         if single:
@@ -86,11 +86,21 @@ def run_case(run, tf, drv, files, pl, single, via_cli, tag):
         else:
             write_tree(root, [(rel, b.bytes()) for rel, b in files])
         out = os.path.join(box, "out.torrent")
+        spelled, wd = root, None
+        if case.get("spelling") and not single:
+            spelled, wd = {"trail": (root + "/", None), "dot": (".", root),
+                           "dotslash": ("./payload", box), "dbl": (root.replace("/payload", "//payload"), None),
+                           "updown": ("payload/../payload", box)}[case["spelling"]]
+        old_cwd = os.getcwd()
         try:
-            obs = observe(tf, root, pl, via_cli, out)
+            if wd:
+                os.chdir(wd)
+            obs = observe(tf, spelled, pl, via_cli, out)
         except Exception as exc:  # the property promises a metafile for every such tree
             run.fail("impl-vs-spec", case, {"raised": repr(exc)})
             return
+        finally:
+            os.chdir(old_cwd)
     exp, order = expected(files, pl, single, obs["files"])
     if exp is None:
         run.fail("impl-vs-spec", case, {"field": "files", "impl": _short(obs["files"]),
@@ -129,7 +139,8 @@ def run(tier, seed, replay=None):
     if replay:
         c = replay["case"]
         files = [(rel, _blob(tok)) for rel, tok in c["files"]]
-        run_case(run, tf, drv, files, c["pl"], c["single"], c["via_cli"], "replay")
+        run_case(run, tf, drv, files, c["pl"], c["single"], c["via_cli"], "replay",
+                 spelling=c.get("spelling"))
     else:
         n = 160 if tier == "quick" else 1500
         for i in range(n):
@@ -140,7 +151,8 @@ def run(tier, seed, replay=None):
                 files = [(rng.choice(gen.NAMES), gen.pick_blob(rng, size))]
             else:
                 files, _ = gen.tree(rng, B, pl, big=(tier != "quick"))
-            run_case(run, tf, drv, files, pl, single, rng.random() < 0.3, "random")
+            run_case(run, tf, drv, files, pl, single, rng.random() < 0.3, "random",
+                     spelling=rng.choice([None, None, None, "trail", "dot", "dotslash", "dbl", "updown"]))
         if tier == "thorough":
             classes = gen.size_classes(B, B)
             for pl in (B, 2 * B):
